@@ -9,6 +9,7 @@ import (
 	"os"
 	"path/filepath"
 	"sort"
+	"strings"
 
 	comet "github.com/wizenheimer/comet"
 )
@@ -245,8 +246,16 @@ func genC10(r *rand.Rand, t *Trace, thorough bool) {
 			s.rotate()
 		}
 		var images []crashImage
+		// the order in which the component files of the segment being written are completed is OBSERVED
+		// (one hook point after each gzip close), never assumed: a writer that completes the hybrid_ file
+		// before a component yields images in which a registered-looking segment is partial
+		var closeOrder []string
+		compName := []string{"hybrid", "vector", "text", "metadata"}
 		comet.VerifSetHandler(func(name string, args ...uint64) {
 			switch name {
+			case "flush.gzclosed", "compact.gzclosed":
+				closeOrder = append(closeOrder, compName[args[len(args)-1]])
+				images = append(images, crashImage{label: name, files: snapshotDir(dir)})
 			case "flush.created", "flush.closed", "flush.before_register", "flush.registered", "flush.before_drop",
 				"compact.closed", "compact.before_register", "compact.registered", "compact.unregistered", "delete.file":
 				images = append(images, crashImage{label: name, files: snapshotDir(dir)})
@@ -268,11 +277,22 @@ func genC10(r *rand.Rand, t *Trace, thorough bool) {
 				newFiles = append(newFiles, name)
 			}
 		}
-		order := map[string]int{"vector": 0, "text": 1, "metadata": 2, "hybrid": 3}
+		order := map[string]int{}
+		for i, n := range closeOrder {
+			if _, seen := order[n]; !seen {
+				order[n] = i
+			}
+		}
+		for _, n := range compName { // a component whose close was not observed counts as completed last
+			if _, seen := order[n]; !seen {
+				order[n] = len(closeOrder) + 1
+			}
+		}
 		sort.Slice(newFiles, func(i, j int) bool {
 			return order[segFileRe.FindStringSubmatch(newFiles[i])[1]] < order[segFileRe.FindStringSubmatch(newFiles[j])[1]]
 		})
-		if !inflightCompact {
+		t.Stat("crash.close_order." + strings.Join(closeOrder, "-"))
+		if !inflightCompact || len(closeOrder) > 0 {
 			for i, name := range newFiles {
 				full := final[name]
 				for _, cut := range []int{0, 5, 10, len(full) / 2, len(full) - 9, len(full) - 1} {
